@@ -38,7 +38,7 @@ MkInputX(T, tm, shape, P, nvd, eld, vold, nq, fplan, bplan) ==
    poly |-> [set |-> TRUE, v |-> VPoly, e |-> EPoly],
    cvtab |-> [k \in 1..Len(T) |-> IF k = 2 THEN <<R0, R0, R0>> ELSE <<RInt(20 + k), <<1, 10>>, <<1, 100>>>>],
    stab |-> [k \in 1..Len(T) |-> <<RInt(10 + k), <<1, 2>>, <<-1, 100>>>>],
-   shift |-> R0, e0base |-> [k \in 1..Len(T) |-> PolyEval(EPoly, RInt(T[k]))],
+   vorder |-> "asc", shift |-> R0, e0base |-> [k \in 1..Len(T) |-> PolyEval(EPoly, RInt(T[k]))],
    vref |-> 40, nvd |-> nvd, eldtype |-> eld, voldtype |-> vold, elcurve |-> eld = "float", wf |-> FALSE,
    fitplan |-> fplan, bmplan |-> bplan]
 
